@@ -33,6 +33,33 @@ pub mod prelude {
     #[verifier::external_type_specification]
     pub struct ExIoErrorKind(std::io::ErrorKind);
 
+    #[verifier::external_type_specification]
+    pub struct ExSocketAddr(std::net::SocketAddr);
+
+    #[verifier::external_type_specification]
+    #[verifier::external_body]
+    pub struct ExSocketAddrV4(std::net::SocketAddrV4);
+
+    #[verifier::external_type_specification]
+    #[verifier::external_body]
+    pub struct ExSocketAddrV6(std::net::SocketAddrV6);
+
+    // a socket address is modelled by its IP and port (flow-info / scope of V6 are not
+    // observable through ip() / port(), which is all ppp uses)
+    pub uninterp spec fn sa4_ip(a: std::net::SocketAddrV4) -> Ipv4Addr;
+    pub uninterp spec fn sa4_port(a: std::net::SocketAddrV4) -> u16;
+    pub uninterp spec fn sa6_ip(a: std::net::SocketAddrV6) -> Ipv6Addr;
+    pub uninterp spec fn sa6_port(a: std::net::SocketAddrV6) -> u16;
+
+    pub assume_specification[ std::net::SocketAddrV4::ip ](s: &std::net::SocketAddrV4) -> (r: &Ipv4Addr)
+        ensures *r == sa4_ip(*s);
+    pub assume_specification[ std::net::SocketAddrV4::port ](s: &std::net::SocketAddrV4) -> (r: u16)
+        ensures r == sa4_port(*s);
+    pub assume_specification[ std::net::SocketAddrV6::ip ](s: &std::net::SocketAddrV6) -> (r: &Ipv6Addr)
+        ensures *r == sa6_ip(*s);
+    pub assume_specification[ std::net::SocketAddrV6::port ](s: &std::net::SocketAddrV6) -> (r: u16)
+        ensures r == sa6_port(*s);
+
     // abstract views: the 4 / 16 octets in network order
     pub uninterp spec fn v4_octets(a: Ipv4Addr) -> Seq<u8>;
     pub uninterp spec fn v6_octets(a: Ipv6Addr) -> Seq<u8>;
@@ -80,8 +107,53 @@ pub mod prelude {
         ensures r[0] as int == (x as int) / 256, r[1] as int == (x as int) % 256
     { x.to_be_bytes() }
 
+    // R9: std::cmp::min, used by ppp on usize only
+    #[verifier::external_body]
+    pub fn usize_min(a: usize, b: usize) -> (r: usize)
+        ensures r == (if a <= b { a } else { b })
+    { std::cmp::min(a, b) }
+
+    // ---- Cow / slice / Vec helpers ----------------------------------------------------
+    pub assume_specification<T: Clone>[ <[T]>::to_vec ](s: &[T]) -> (r: Vec<T>)
+        ensures r@ == s@;
+
+    pub assume_specification<'b, T>[ <[T] as AsRef<[T]>>::as_ref ](s: &'b [T]) -> (r: &'b [T])
+        ensures r@ == s@;
+
+    // the reflexive conversion `impl<T> From<T> for T` is the identity; `impl<T> From<T> for Option<T>` is `Some`
+    pub assume_specification<T>[ <T as From<T>>::from ](a: T) -> (r: T)
+        ensures r == a;
+    pub assume_specification<T>[ <Option<T> as From<T>>::from ](a: T) -> (r: Option<T>)
+        ensures r == Some(a);
+
+    pub assume_specification<'a, T: Clone>[ <std::borrow::Cow<'a, [T]> as From<&'a [T]>>::from ](s: &'a [T]) -> (r: std::borrow::Cow<'a, [T]>)
+        ensures r == std::borrow::Cow::<'a, [T]>::Borrowed(s);
+
+    // Deref of a Cow yields the viewed contents
+    pub uninterp spec fn cow_deref_spec<'a, 'b, B: ?Sized + ToOwned>(c: &'b std::borrow::Cow<'a, B>) -> &'b B;
+    pub assume_specification<'a, 'b, B: ?Sized + ToOwned>[ <std::borrow::Cow<'a, B> as std::ops::Deref>::deref ](c: &'b std::borrow::Cow<'a, B>) -> (r: &'b B)
+        ensures r == cow_deref_spec(c);
+    #[verifier::external_body]
+    pub broadcast proof fn axiom_cow_deref_bytes<'a, 'b>(c: &'b std::borrow::Cow<'a, [u8]>)
+        ensures (#[trigger] cow_deref_spec::<[u8]>(c))@ == c@
+    {}
+
+    pub broadcast proof fn lemma_bitor_comm_u8(a: u8, b: u8)
+        ensures #[trigger] (a | b) == b | a
+    { assert((a | b) == b | a) by(bit_vector); }
+
+    pub uninterp spec fn cow_as_ref_spec<'a, 'b, T: ?Sized + ToOwned>(c: &'b std::borrow::Cow<'a, T>) -> &'b T;
+
+    pub assume_specification<'a, 'b, T: ?Sized + ToOwned>[ <std::borrow::Cow<'a, T> as AsRef<T>>::as_ref ](c: &'b std::borrow::Cow<'a, T>) -> (r: &'b T)
+        ensures r == cow_as_ref_spec(c);
+
+    #[verifier::external_body]
+    pub broadcast proof fn axiom_cow_as_ref_bytes<'a, 'b>(c: &'b std::borrow::Cow<'a, [u8]>)
+        ensures (#[trigger] cow_as_ref_spec::<[u8]>(c))@ == c@
+    {}
+
     pub broadcast group prelude_axioms {
-        axiom_v4_octets_len, axiom_v6_octets_len, axiom_v4_ext, axiom_v6_ext,
+        axiom_v4_octets_len, axiom_v6_octets_len, axiom_v4_ext, axiom_v6_ext, axiom_cow_as_ref_bytes, axiom_cow_deref_bytes, lemma_bitor_comm_u8,
     }
     }
 }
